@@ -1887,6 +1887,9 @@ func (s *ImmuStore) performPrecommit(tx *Tx, entries []*EntrySpec, ts int64, blT
 			return err
 		}
 		tx.header.BlRoot = blRoot
+	} else {
+		// tx holders are pooled: the root of the holder's previous tx must not survive
+		tx.header.BlRoot = [sha256.Size]byte{}
 	}
 
 	if tx.header.ID <= tx.header.BlTxID {
